@@ -236,6 +236,36 @@ func (m *MonC14) PostTx(ctx sdk.Context, t *ExecTx) {
 		if d := remaining(pre.entries, DenomELYS).Sub(remaining(post.entries, DenomELYS)); !d.Equal(x.Amount) {
 			s.Violate("C14", "cancel_unreleased", culprit, "%s: cancel of %s reduced the not-yet-released amount by %s (before %s, after %s)", owner, x.Amount, d, fmtEntries(pre.entries), fmtEntries(post.entries))
 		}
+		// the schedules themselves: newest entry first, each gives up at most what it has not released
+		// yet; start, length and released amount of every entry stay as they were; an entry whose
+		// total is used up disappears
+		{
+			want := append([]vestEntry(nil), pre.entries...)
+			rem := x.Amount
+			for i := len(want) - 1; i >= 0; i-- {
+				e := want[i]
+				if e.Denom != DenomELYS || e.N == 0 || e.Total.IsZero() {
+					continue
+				}
+				take := sdkmath.MinInt(rem, e.Total.Sub(e.Claimed))
+				if take.IsNegative() {
+					take = sdkmath.ZeroInt()
+				}
+				e.Total = e.Total.Sub(take)
+				want[i] = e
+				rem = rem.Sub(take)
+			}
+			var kept []vestEntry
+			for _, e := range want {
+				if e.Claimed.GTE(e.Total) {
+					continue
+				}
+				kept = append(kept, e)
+			}
+			if fmtEntries(kept) != fmtEntries(post.entries) {
+				s.Violate("C14", "cancel_entries", culprit, "%s: cancel of %s left the schedules %s, expected %s (before: %s)", owner, x.Amount, fmtEntries(post.entries), fmtEntries(kept), fmtEntries(pre.entries))
+			}
+		}
 		if !balDelta(DenomELYS).IsZero() {
 			s.Violate("C14", "cancel_pays_elys", culprit, "%s: cancel changed the uelys balance by %s", owner, balDelta(DenomELYS))
 		}
